@@ -3,7 +3,7 @@
 From PV Require Export Names.Checker.
 From PV Require Export gen.Names_env gen.Names_known gen.Names_stim gen.Names_pipeline gen.Names_util
   gen.Names_queue gen.Names_calibration gen.Names_buffer gen.Names_efr gen.Names_stats gen.Names_weighting
-  gen.Names_plot.
+  gen.Names_plot gen.Names_selftest.
 
 Definition gen_pkg : list module :=
   [gen_stim; gen_pipeline; gen_util; gen_queue; gen_calibration; gen_buffer; gen_efr; gen_stats;
